@@ -133,9 +133,13 @@ impl<'a> PerTypeLookup<'a> {
 				);
 			};
 			let register_type_name = |type_name: &'static str| {
+				// Names of types never take precedence over the names of named types (e.g. a
+				// record that is named `Duration` should still be found by its name when
+				// there's also a duration in the union)
 				per_name
 					.borrow_mut()
-					.insert(Cow::Borrowed(type_name), (discriminant, schema_node));
+					.entry(Cow::Borrowed(type_name))
+					.or_insert((discriminant, schema_node));
 			};
 			// Note that the following list is very coupled with the serializer:
 			// every `UnionVariantLookupKey` corresponds to one (or more) function
